@@ -586,7 +586,9 @@ type rsnapObs struct {
 // counter reads the snapshot id counter straight from the valset store (prefix "IDs", key
 // "generated-ids-snapshot-id", 8 bytes big endian): (value, present).
 func (e *env) counter() (uint64, bool) {
-	cms, ok := e.in.Ctx.MultiStore().(storetypes.CommitMultiStore)
+	cms, ok := e.in.Ctx.MultiStore().(interface {
+		StoreKeysByName() map[string]storetypes.StoreKey
+	})
 	if !ok {
 		return 0, false
 	}
